@@ -7,6 +7,7 @@ B5  tables sized by header numbers are allocated only after the declared wire co
 B6  assigned-table: a gate reads only assigned wires, writes an unassigned one, and all declared outputs are assigned
 B4  every imported gate writes its output wire into the translation table the later gates read, and takes a fresh wire number
     (the one structural clause of "import reproduces the circuit" that is visible in the shape of the loop)
+B7  exporter: the wire number given to a de-aliased repeated output advances with every helper gate appended
 """
 from .. import mir
 from ..core import AnchorMissing, Finding, RuleResult
@@ -25,7 +26,8 @@ LEVEL_TEXT = (
     "pushes a gate, the gate's output wire is written into the table from which later gates translate their operands, and the wire "
     "counter is incremented. Not decided: round-trip "
     "equivalence and well-formedness of the exported text (computed wire numbers for all circuits: value level)."
-    " (B6) a table of assigned wires is consulted for every gate (read wires assigned, written wire not yet) and for the declared outputs.")
+    " (B6) a table of assigned wires is consulted for every gate (read wires assigned, written wire not yet) and for the declared outputs."
+    " (B7) In the exporter, the number a repeated output wire is renamed to derives from a counter assigned on every loop path that appends helper gates (by as much as gates are appended) or from the length of the circuit they are appended to.")
 LEVEL_NOTE = ("Trusted: rustc MIR in the debug profile (overflow checks are Assert terminators); a guard is accepted when it compares "
               "the same parsed values - that the compared bound is the right one is read from the code, not proved.")
 EXPLANATION = ("Functions analysed: Circuit::bristol_to_garble, convert::parse_line, convert::checked_sum and their closures. Taint "
@@ -541,5 +543,108 @@ def rule_b6(ctx):
     return res
 
 
+def rule_b7(ctx):
+    """Exporter: Bristol needs every output bit on a wire of its own, so for every repeated output wire the exporter appends
+    helper gates and renumbers the output.  The number a renumbered output gets has to change from one repeated output to the
+    next (a counter advanced in the loop, or the length of the circuit the gates are appended to); a number that is the same in
+    every iteration gives two outputs the same wire."""
+    res = RuleResult("B7", "exporter: the wire number given to a de-aliased repeated output advances with every helper gate appended")
+    f = ctx.find_fn("format_as_bristol")
+    root = f["id"]
+    body = ctx.body(root)
+    pushes = [(b, t) for b, t in body.calls() if mir.last_seg(mir.callee(t) or "") == "push" and len(t["args"]) == 2
+              and "circuit::Gate" in t["args"][1].get("place", {}).get("ty", "") and not body.blocks[b]["cleanup"]]
+    loops = [lp for lp in body.loops() if any(b in lp["body"] for b, _ in pushes)]
+    if not pushes or not loops:
+        raise AnchorMissing("B7: expected the exporter to append helper gates for repeated output wires inside a loop")
+    lp = min(loops, key=lambda l: len(l["body"]))
+    pushes = [(b, t) for b, t in pushes if b in lp["body"]]
+    pushed_to = set()
+    for b, t in pushes:
+        pushed_to |= {r for (r, p) in body.trace_operand(t["args"][0])}
+    stores = []
+    for b in sorted(lp["body"]):
+        if body.blocks[b]["cleanup"]:
+            continue
+        for st in body.blocks[b]["stmts"]:
+            if st["k"] == "assign" and st["place"]["ty"] == "usize" and st["place"]["p"] and st["place"]["p"][0]["k"] == "deref" \
+                    and "&mut usize" in body.locals[st["place"]["l"]]["ty"] and st["rv"]["k"] == "use":
+                stores.append((b, st))
+    if not stores:
+        raise AnchorMissing("B7: expected the loop over the outputs to renumber a repeated output (`*out = ..`)")
+    defs = body.defs()
+
+    def sources(l, seen):
+        """('carried', local) for locals assigned both outside and inside the loop, ('len', block) for lengths of the object the
+        gates are appended to, looking through the temporaries defined inside the loop."""
+        if l in seen:
+            return set()
+        seen.add(l)
+        ds = [d for d in defs.get(l, []) if d[0] in ("assign", "call")]
+        inside = [d for d in ds if d[1] in lp["body"]]
+        outside = [d for d in ds if d[1] not in lp["body"]]
+        if inside and outside:
+            return {("carried", l)}
+        out = set()
+        for d in inside:
+            if d[0] == "assign":
+                rv = d[3]["rv"]
+                ops = [rv.get("op")] if rv["k"] in ("use", "cast") else [rv.get("l"), rv.get("r")] if rv["k"] == "binop" else rv.get("ops", [])
+                for o in ops:
+                    if isinstance(o, dict) and o.get("k") in ("copy", "move"):
+                        out |= sources(o["place"]["l"], seen)
+            else:
+                t = d[3]
+                seg = mir.last_seg(mir.callee(t) or "")
+                if seg in ("len", "wires_len") and t["args"] and {r for (r, p) in body.trace_operand(t["args"][0])} & pushed_to:
+                    out.add(("len", d[1]))
+                else:
+                    for o in t["args"]:
+                        if o.get("k") in ("copy", "move"):
+                            out |= sources(o["place"]["l"], seen)
+        return out
+
+    def inloop(b):
+        return [x for x in body.succs(b) if x in lp["body"] and not body.blocks[x]["cleanup"]]
+    for b, st in stores:
+        op = st["rv"]["op"]
+        src = sources(op["place"]["l"], set()) if op["k"] in ("copy", "move") else set()
+        if not src:
+            res.bad(Finding("B7", root, "renumbered outputs all get the same wire",
+                            "the wire number stored for a repeated output does not depend on anything that changes inside the loop (no counter advanced in the loop, no length of the "
+                            "circuit the helper gates are appended to): with two repeated outputs the second is given the wire of the first, and the helper gates of the second define a wire twice",
+                            st["sp"]))
+            continue
+        bad = None
+        for kind, l in sorted(src):
+            if kind != "carried":
+                continue
+            bumps = {d[1] for d in defs.get(l, []) if d[0] == "assign" and d[1] in lp["body"]}
+            for pb, pt in pushes:
+                if pb not in bumps and body.path(lp["header"], [pb], blocked=bumps, succ=inloop) and body.path(pb, [lp["header"]], blocked=bumps, succ=inloop):
+                    bad = (l, pt)
+            # the step: constant additions to the counter against the gates appended per iteration (straight-line loop bodies only)
+            steps = []
+            for d in defs.get(l, []):
+                if d[0] == "assign" and d[1] in lp["body"] and d[3]["rv"]["k"] == "use" and d[3]["rv"]["op"]["k"] in ("copy", "move"):
+                    for d2 in defs.get(d[3]["rv"]["op"]["place"]["l"], []):
+                        if d2[0] == "assign" and d2[3]["rv"]["k"] == "binop" and d2[3]["rv"]["op"] in ("AddWithOverflow", "Add", "AddUnchecked"):
+                            ops = (d2[3]["rv"]["l"], d2[3]["rv"]["r"])
+                            if any(o["k"] in ("copy", "move") and o["place"]["l"] == l for o in ops):
+                                steps += [o.get("val") for o in ops if o["k"] == "const"]
+            chain = all(body.dominates(pushes[i][0], pushes[i + 1][0]) for i in range(len(pushes) - 1))
+            if len(steps) == 1 and steps[0] is not None and chain and steps[0] != len(pushes) and not bad:
+                res.bad(Finding("B7", root, "counter step differs from the number of helper gates",
+                                "every iteration appends %d gates (each defines one wire) but advances the wire counter by %s" % (len(pushes), steps[0]), st["sp"]))
+                bad = "step"
+        if bad and bad != "step":
+            res.bad(Finding("B7", root, "helper gates appended without advancing the wire counter",
+                            "a path through the loop appends a helper gate (line %d) and comes back to the loop head without assigning the counter the renumbered output is taken from" % bad[1]["sp"][1], st["sp"]))
+        elif not bad:
+            res.ok({"store": "line %d" % st["sp"][1], "depends_on": sorted("%s:%s" % k for k in src), "helper_gates_per_iteration": len(pushes),
+                    "verdict": "the number changes with every repeated output"})
+    return res
+
+
 def run(ctx):
-    return ctx.run_rules([rule_b1, rule_b2, rule_b3, rule_b4, rule_b5, rule_b6])
+    return ctx.run_rules([rule_b1, rule_b2, rule_b3, rule_b4, rule_b5, rule_b6, rule_b7])
